@@ -412,6 +412,37 @@ func runC13(w *World, r *Report, tier string) {
 		}
 	}
 
+	// the post-connect callback is optional: called exactly when it is set
+	fPC := w.Field("xmpp.StreamManager.PostConnect")
+	pcPolarity := func(path []ssa.Instruction, n int) string {
+		set := pathAsserts(path, func(c ssa.Value, truth bool) bool {
+			x, eq, ok := nilCompare(c)
+			if !ok {
+				return false
+			}
+			f, _ := loadedField(x)
+			return f == fPC && eq != truth
+		})
+		unset := pathAsserts(path, func(c ssa.Value, truth bool) bool {
+			x, eq, ok := nilCompare(c)
+			if !ok {
+				return false
+			}
+			f, _ := loadedField(x)
+			return f == fPC && eq == truth
+		})
+		switch {
+		case set && n != 1:
+			return fmt.Sprintf("PostConnect is set but called %d time(s) for the new session", n)
+		case unset && n != 0:
+			return "PostConnect is called on the path on which it is nil"
+		case !set && !unset && n != 0:
+			return "PostConnect is called without having been tested for nil"
+		case !set && !unset:
+			return "the new session is reported without PostConnect having been considered"
+		}
+		return ""
+	}
 	// ---- R5 retry loop
 	res := w.Func("xmpp.(*StreamManager).resume")
 	rcalls := w.callsInH(res, "xmpp.StreamClient.Resume")
@@ -459,6 +490,13 @@ func runC13(w *World, r *Report, tier string) {
 			if failed {
 				nPerm++
 				perm := pathAsserts(path, func(c ssa.Value, truth bool) bool { f, _ := loadedField(c); return f == fPerm && truth })
+				isConnErr := pathAsserts(path, func(c ssa.Value, truth bool) bool {
+					call, _ := callResult(c)
+					return call != nil && truth && (w.callKey(call) == "golang.org/x/xerrors.As" || w.callKey(call) == "errors.As")
+				})
+				if perm && !isConnErr {
+					bad = "the Permanent flag is read although the error was not found to be a ConnError (xerrors.As did not succeed): it is the zero value's flag"
+				}
 				if !perm {
 					bad = "the retry loop gives up after an error that is not a permanent ConnError (return at " + w.ipos(last) + ")"
 				}
@@ -473,6 +511,9 @@ func runC13(w *World, r *Report, tier string) {
 			nOK++
 			if countOn(path, isPC) > 1 {
 				bad = "PostConnect is called more than once for one session"
+			}
+			if why := pcPolarity(path, countOn(path, isPC)); why != "" {
+				bad = why
 			}
 		})
 		// PostConnect exactly once when set: the call must exist on the success exits
@@ -523,6 +564,11 @@ func runC13(w *World, r *Report, tier string) {
 			if !failed && n > 1 {
 				bad = "PostConnect runs more than once"
 			}
+			if _, isRet := path[len(path)-1].(*ssa.Return); isRet && !failed {
+				if why := pcPolarity(path, n); why != "" {
+					bad = why
+				}
+			}
 			if ret, ok := path[len(path)-1].(*ssa.Return); ok && failed && isNilConst(rres(path, ret)[0]) {
 				bad = "a failed first connection is reported as success"
 			}
@@ -547,6 +593,12 @@ func runC13(w *World, r *Report, tier string) {
 	r.Check(okStop, "R6", "xmpp.(*StreamManager).Stop", w.pos(stop.Pos()), "Stop does not remove the handler, disconnect and release Run in that order (found: "+seq+"): a reconnect can be triggered by the stop itself, or Run never returns", "SetHandler(nil) ≺ Disconnect ≺ wg.Done")
 	seqR := orderedCalls(w, run, "sync.WaitGroup.Add", "xmpp.StreamManager.connect", "sync.WaitGroup.Wait")
 	okRun := seqR == "sync.WaitGroup.Add,xmpp.StreamManager.connect,sync.WaitGroup.Wait"
+	// one unit is added: Stop's single Done (or the failure path's) must be able to release Wait
+	for _, c := range w.callsInH(run, "sync.WaitGroup.Add") {
+		if k, isK := intConst(c.Common().Args[len(c.Common().Args)-1]); !isK || k != 1 {
+			okRun = false
+		}
+	}
 	// failure edge passes Done and returns the error
 	for _, c := range w.callsInH(run, "xmpp.StreamManager.connect") {
 		cc := c.(*ssa.Call)
